@@ -437,7 +437,7 @@ def run(ctx):
             return
     if not ctx.quick:
         ctx.exhaustive = True
-    ctx.given(cases(max_len=12), counted, quick=600, thorough=24000)
+    ctx.given(cases(max_len=12), counted, quick=600, thorough=16000)
 
 
 def replay(case):
